@@ -418,20 +418,22 @@ def showing_components(chk, ctx) -> None:
     missing = [k for k, v in need.items() if not v]
     chk.ob('C12.show_refusals', f'State.{fi.name}', not missing, fi.loc,
            'a show is refused for a player who is out, who is not due to show, or who names more cards than he holds', got=f'missing: {missing}' if missing else 'ok')
-    gh = ctx.sfi('get_hand')
-    want = T.spec('self.hand_types[hand_type_index].from_game(filter(None, self.hole_cards[player_index]), self.get_board_cards(board_index))')
-    got = [unversion(c.term) for p in ctx.paths(gh) for c in p.calls() if c.term[0] == 'mcall' and c.term[2] == 'from_game']
-    chk.ob('C12.hand_source', 'State.get_hand', bool(got) and all(g == want for g in got), gh.loc,
-           "a player's own hand (can he still win?) is made from his known hole cards and the asked board", got=T.show(got[0]) if got else None)
+    hand_observers(chk, ctx, 'C12.hand_source', names=('get_hand',))
 
 
-def hand_observers(chk, ctx, rule) -> None:
+def hand_observers(chk, ctx, rule, names=('get_hand', 'get_up_hand')) -> None:
     """the two places where the engine evaluates a hand hand the evaluator the right cards: the player's known hole cards (his own hand)
     or his face-up cards (the hand the others see), and the cards of the asked board, with the asked hand type"""
     for name, cards, what in (('get_hand', 'filter(None, self.hole_cards[player_index])', "a player's own hand is made from his known hole cards and the asked board"),
                               ('get_up_hand', 'self.get_up_cards(player_index)', "a showdown hand is made from the player's shown cards and the asked board")):
+        if name not in names:
+            continue
         f = ctx.sfi(name)
         want = T.spec(f'self.hand_types[hand_type_index].from_game({cards}, self.get_board_cards(board_index))')
         got = [unversion(c.term) for p in ctx.paths(f) for c in p.calls() if c.term[0] == 'mcall' and c.term[2] == 'from_game']
-        chk.ob(rule, f'State.{name}', bool(got) and all(g == want for g in got), f.loc, what + ', with the asked hand type',
-               got=T.show(got[0]) if got else None, want=T.show(want))
+        # ... and that evaluation (or None: player out of the hand, no hand can be formed) is all the function ever answers
+        rets = [unversion(p.outcome[1]) for p in ctx.paths(f) if p.returned]
+        other = [r for r in rets if r != ('const', None) and r != want]
+        chk.ob(rule, f'State.{name}', bool(got) and all(g == want for g in got) and not other and want in rets, f.loc,
+               what + ', with the asked hand type; that evaluation or None is the only answer',
+               got=T.show(other[0]) if other else (T.show(got[0]) if got else None), want=T.show(want))
